@@ -653,7 +653,7 @@ pub struct World {
     /// the malformed-result fault hit a search whose caller was blocked in the stream without a
     /// timeout: the driver itself has to decode that frame, cannot, and the connection is over
     pub bad_tail_kills: bool,
-    /// per search marker: how many of its frames the driver had read when an Abandon naming it
+    /// per search marker: how many of its frames the server had sent when an Abandon naming it
     /// was acknowledged to its caller (nothing beyond them may be handed out any more)
     pub abandon_acked: BTreeMap<String, usize>,
 }
@@ -1833,7 +1833,9 @@ impl World {
             }
             Call::Abandon(_) | Call::Unbind | Call::DropHandle => {
                 if let (Call::Abandon(AbTarget::Marker(m)), Ret::Unit) = (call, &obs.ret) {
-                    let n = self.routed_frames(m);
+                    // (frames the server has emitted by now: an upper bound, whatever part of them the
+                    // driver has read; the routed count is a lower bound while bytes are in transit)
+                    let n: usize = self.server.reqs.iter().filter(|r| r.marker == *m).map(|r| self.emitted.get(&r.id).copied().unwrap_or(0)).sum();
                     self.abandon_acked.entry(m.clone()).or_insert(n);
                 }
                 if let Ret::Err(k, m) = &obs.ret {
@@ -1986,7 +1988,7 @@ impl World {
                             if self.scn.oracles.route && !paged && pos >= *n {
                                 self.v(
                                     "route:item-after-abandon",
-                                    format!("client {} next() handed out item #{} ({:?}) of a search whose Abandon had been acknowledged when the driver had read {} of its frames", i, pos, g.label, n),
+                                    format!("client {} next() handed out item #{} ({:?}) of a search whose Abandon had been acknowledged when the server had sent only {} of its frames", i, pos, g.label, n),
                                 );
                             }
                         }
